@@ -152,6 +152,20 @@ theorem C22_method_by_position_counterexample :
     methodByPosition ["sides", "area"] 0 = some 0 ∧ methodByName ["area", "sides"] ["sides", "area"] 0 = some 1 := by
   decide
 
+/-! ### operators -/
+
+/-- Every operator on a non-builtin operand type is lowered to a method that exists in its prelude
+    interface, and a compound assignment uses the very method of the plain operator. -/
+theorem C22_operator_method (o : Oper) :
+    o.method.2 ∈ ifaceMethods o.method.1 ∧
+      (o.compound = true → compoundMethod o = some o.method) := by
+  cases o <;> simp [Oper.method, ifaceMethods, compoundMethod, Oper.compound]
+
+/-- the arithmetic operators reach five different methods of `Num` (no two operators share one) -/
+theorem C22_num_operators_distinct (a b : Oper) (ha : a.method.1 = "Num") (hb : b.method.1 = "Num")
+    (h : a.method = b.method) : a = b := by
+  cases a <;> cases b <;> simp_all [Oper.method]
+
 /-! ### labels -/
 
 /-- states reachable from the empty map by label requests -/
